@@ -1,0 +1,126 @@
+//go:build verif
+
+package term
+
+// Verification hooks, compiled only with the build tag "verif". They add no
+// behaviour: a constructor for a Model that has no child process, an entry
+// point that applies one parsed sequence exactly as the PTY goroutine does,
+// and a read-only copy of the display state.
+
+import (
+	"os"
+	"strings"
+
+	"git.sr.ht/~rockorager/vaxis"
+	"git.sr.ht/~rockorager/vaxis/ansi"
+)
+
+// VerifCell is a copy of one grid cell.
+type VerifCell struct {
+	Grapheme string
+	Width    int
+	Style    vaxis.Style
+	Wrapped  bool
+}
+
+// VerifCursor is a copy of a cursor (position and pen).
+type VerifCursor struct {
+	Row, Col int
+	Pen      vaxis.Style
+}
+
+// VerifState is a read-only copy of the emulator's display state.
+type VerifState struct {
+	Active      [][]VerifCell // the screen being displayed
+	PrimaryDims []int         // length of every row of the primary screen
+	AltDims     []int         // length of every row of the alternate screen
+	Alt         bool          // the alternate screen is active
+	Cursor      VerifCursor
+	LastCol     bool // deferred wrap pending
+	SavedPri    VerifCursor
+	SavedAlt    VerifCursor
+	Top, Bottom int
+	Left, Right int
+	TabStops    []int
+	DECAWM      bool
+	DECOM       bool
+	DECTCEM     bool
+	IRM         bool
+	LNM         bool
+	CursorStyle int
+}
+
+// NewVerif returns a Model of the given size without a PTY or a child
+// process. Replies the emulator sends to its child are written to w.
+func NewVerif(w *os.File, cols int, rows int) *Model {
+	vt := New()
+	vt.pty = w
+	vt.parser = ansi.NewParser(strings.NewReader(""))
+	vt.resize(cols, rows)
+	return vt
+}
+
+// VerifFeed applies one parsed sequence through the PTY goroutine's update
+// path and returns the events it raised (draining the event channel, as the
+// goroutine's select loop would).
+func (vt *Model) VerifFeed(seq ansi.Sequence) []vaxis.Event {
+	vt.update(seq)
+	var evs []vaxis.Event
+	for {
+		select {
+		case ev := <-vt.events:
+			evs = append(evs, ev)
+		default:
+			return evs
+		}
+	}
+}
+
+func verifCursor(c cursor) VerifCursor {
+	return VerifCursor{Row: int(c.row), Col: int(c.col), Pen: c.Style}
+}
+
+// VerifSnapshot copies the display state.
+func (vt *Model) VerifSnapshot() VerifState {
+	vt.mu.Lock()
+	defer vt.mu.Unlock()
+	s := VerifState{
+		Alt:         vt.mode.smcup,
+		Cursor:      verifCursor(vt.cursor),
+		LastCol:     vt.lastCol,
+		SavedPri:    verifCursor(vt.primaryState.cursor),
+		SavedAlt:    verifCursor(vt.altState.cursor),
+		Top:         int(vt.margin.top),
+		Bottom:      int(vt.margin.bottom),
+		Left:        int(vt.margin.left),
+		Right:       int(vt.margin.right),
+		DECAWM:      vt.mode.decawm,
+		DECOM:       vt.mode.decom,
+		DECTCEM:     vt.mode.dectcem,
+		IRM:         vt.mode.irm,
+		LNM:         vt.mode.lnm,
+		CursorStyle: int(vt.cursor.style),
+	}
+	s.Active = make([][]VerifCell, len(vt.activeScreen))
+	for r, line := range vt.activeScreen {
+		s.Active[r] = make([]VerifCell, len(line))
+		for c, cl := range line {
+			s.Active[r][c] = VerifCell{
+				Grapheme: cl.Grapheme,
+				Width:    cl.Width,
+				Style:    cl.Style,
+				Wrapped:  cl.wrapped,
+			}
+		}
+	}
+	for _, line := range vt.primaryScreen {
+		s.PrimaryDims = append(s.PrimaryDims, len(line))
+	}
+	for _, line := range vt.altScreen {
+		s.AltDims = append(s.AltDims, len(line))
+	}
+	for _, ts := range vt.tabStop {
+		s.TabStops = append(s.TabStops, int(ts))
+	}
+	return s
+}
